@@ -15,6 +15,7 @@ TraceNext ==
   /\ LET r == Rec[l + 1] IN
        IF r.ev = "reset" THEN /\ n' = 0 /\ open' = [s \in SpanIds |-> FALSE] /\ ext' = [s \in SpanIds |-> [ty \in Types |-> Absent]] /\ nextv' = 1
                               /\ UNCHANGED bad
+       ELSE IF r.ev = "crash" THEN UNCHANGED evars /\ bad' = Append(bad, l + 1)   \* the history crashed or did not end: rejected
        ELSE LET o == [op |-> r.op, s |-> r.s, ty |-> r.ty] IN
             /\ Pre(o) /\ Effect(o)
             /\ bad' = (IF Ok(r) THEN bad ELSE Append(bad, l + 1))
